@@ -7,7 +7,7 @@ from core import stable
 def extension_roundtrip_stream(ctx, res, prop="C19"):
     """files written for configurations that use the library's extension points load back equal: a field that keeps another
     representation in the table (`__setval__` / `__getval__`), a field with an on-disk form of its own (`to_basic` / `to_python`) as a
-    direct field, as a dict KEY field and as a list item, a number field on `Decimal`, items of a `ConfigType` SUBCLASS (they come
+    direct field, as a dict KEY field and as a list item, a LIST field subclass that writes its configurations as a map, a number field on `Decimal`, items of a `ConfigType` SUBCLASS (they come
     back as that class, methods and equality included), and a user-defined file format"""
     import base64
     import ext
@@ -40,6 +40,22 @@ def extension_roundtrip_stream(ctx, res, prop="C19"):
         def to_python(self, cfg, value):
             return None if value is None else value / 100.0
 
+    class KeyedListField(cc.ListField):
+        """a list of configurations written as a map name -> rest of the item (`to_basic` / `to_python` overridden as a pair)"""
+        def to_basic(self, cfg, value):
+            if value is None:
+                return None
+            return {i.name: {k: v for k, v in i.to_tree().items() if k != "name"} for i in value}
+
+        def to_python(self, cfg, value):
+            if value is None:
+                return None
+            if not isinstance(value, dict):
+                raise ValueError("expected a map of name -> server")
+            return super().to_python(cfg, [dict(rest, name=name) for name, rest in value.items()])
+    server = cc.Schema()
+    server.name = cc.StringField(required=True)
+    server.port = cc.IntField(default=1)
     hook = cc.Schema()
     hook.name = cc.StringField(default="h")
     hook.lo = cc.IntField(default=1)
@@ -61,6 +77,8 @@ def extension_roundtrip_stream(ctx, res, prop="C19"):
         s.by_tag = cc.DictField(TagKeyField(), cc.IntField(), default=dict)
         s.ratios = cc.ListField(PercentTextField(), default=lambda: [])
         s.hooks = cc.ListField(MyHook, default=lambda: [])
+        s.servers = KeyedListField(server, default=lambda: [])
+        s.spare = KeyedListField(server, default=lambda: [])
         s.celsius = cc.FloatField(default=20.0)
         s.fahrenheit = cc.VirtualField(lambda c: c.celsius * 9 / 5 + 32, setter=lambda c, v: c.__setitem__("celsius", (v - 32) * 5 / 9) or v)
         cfg = s()
@@ -72,6 +90,7 @@ def extension_roundtrip_stream(ctx, res, prop="C19"):
         cfg.by_tag = {"10.0.0.1": 5, "db host": 0}
         cfg.ratios = [0.1, 0.75]
         cfg.hooks = [MyHook(name="a", lo=1, hi=9), {"name": "b"}]
+        cfg.servers = [{"name": "alpha", "port": 8080}, {"name": "beta"}]
         dest = os.path.join(tmp, "ext-%d.%s" % (n[0], fmt))
         case = {"stream": "extension-roundtrip", "fmt": fmt}
         res.case(stable(case), kind="extension-roundtrip:" + fmt)
@@ -88,6 +107,8 @@ def extension_roundtrip_stream(ctx, res, prop="C19"):
                                   ("by_tag", dict(cfg.by_tag), dict(fresh.by_tag)), ("ratios", [round(x, 9) for x in cfg.ratios], [round(x, 9) for x in fresh.ratios])):
                 if a_ != b_ or type(a_) is not type(b_):
                     problems.append([label, repr(a_), repr(b_)])
+            if [(i.name, i.port) for i in fresh.servers] != [("alpha", 8080), ("beta", 1)] or list(fresh.spare) != [] or not isinstance(cfg.to_tree()["servers"], dict):
+                problems.append(["servers", "a list field subclass with an on-disk form of its own: the form was not written / not read back", repr(cfg.to_tree()["servers"])[:80]])
             if [type(h).__name__ for h in fresh.hooks] != ["MyHook", "MyHook"] or list(fresh.hooks) != list(cfg.hooks) or fresh.hooks[0].describe() != "a:1-9":
                 problems.append(["hooks", [type(h).__name__ for h in fresh.hooks], "items of a config-type subclass did not come back as that class / equal"])
             if "fahrenheit" in cfg.to_tree() or "fahrenheit" in fresh.to_tree() or abs(fresh.celsius - cfg.celsius) > 1e-9:
